@@ -18,7 +18,9 @@ import (
 	"os"
 	"path/filepath"
 	"strings"
+	"syscall"
 	"time"
+	"unsafe"
 
 	"github.com/spf13/afero"
 )
@@ -352,10 +354,38 @@ func (b *builder) build(c *Case) error {
 	return nil
 }
 
-// age gives every file and directory of the case an access/modification time far in the past (garbage
+// lutimes sets the times of a link itself (utimensat with AT_SYMLINK_NOFOLLOW; the os package only offers the
+// following variant).
+func lutimes(path string, t time.Time) error {
+	p, err := syscall.BytePtrFromString(path)
+	if err != nil {
+		return err
+	}
+	ts := [2]syscall.Timespec{syscall.NsecToTimespec(t.UnixNano()), syscall.NsecToTimespec(t.UnixNano())}
+	const atFdCwd, atSymlinkNoFollow = -100, 0x100
+	fd := atFdCwd
+	if _, _, e := syscall.Syscall6(syscall.SYS_UTIMENSAT, uintptr(fd), uintptr(unsafe.Pointer(p)), uintptr(unsafe.Pointer(&ts[0])), atSymlinkNoFollow, 0, 0); e != 0 {
+		return &os.PathError{Op: "utimensat", Path: path, Err: e}
+	}
+	return nil
+}
+
+// age gives every file, directory and link of the case an access/modification time far in the past (garbage
 // collection decides by access time; the thresholds used are 1 h and 100 years against an age of 10 years, so
-// that no verdict depends on how long anything takes). Links are left alone (Chtimes would follow them).
+// that no verdict depends on how long anything takes).
 func (b *builder) age(c *Case) error {
+	if b.osBack {
+		links := []string{"O/u"}
+		for j := range c.Links {
+			links = append(links, c.linkRel(j))
+		}
+		for _, l := range links {
+			mustBeInside(b.abs(l), b.caseDir)
+			if err := lutimes(b.abs(l), b.oldTime); err != nil {
+				return err
+			}
+		}
+	}
 	rels := []string{"O/g", "O/j/n", "O/j/t/n", "O/j/t", "O/j", "O/w", "O"}
 	for i := c.n(); i >= 1; i-- {
 		rels = append(rels, c.entryRel(i))
